@@ -47,10 +47,10 @@ type JSmall struct {
 }
 
 type J3 struct {
-	Nums  []uint16 `serix:"nums,lenPrefix=uint8,minLen=1,maxLen=3"`
-	Inner []JSmall `serix:"inner,lenPrefix=uint8"`
+	Nums  []uint16  `serix:"nums,lenPrefix=uint8,minLen=1,maxLen=3"`
+	Inner []JSmall  `serix:"inner,lenPrefix=uint8"`
 	Fix   [3]uint16 `serix:"fix"`
-	Strs  []string `serix:"strs,lenPrefix=uint8,omitempty"`
+	Strs  []string  `serix:"strs,lenPrefix=uint8,omitempty"`
 }
 
 type J4 struct {
@@ -524,7 +524,9 @@ func execJ(f []string) string {
 
 		return "ok"
 	}
-	a := class(func() error { return jsonAPI.MapDecode(context.Background(), clone(m).(map[string]any), t.fresh(), opts...) })
+	a := class(func() error {
+		return jsonAPI.MapDecode(context.Background(), clone(m).(map[string]any), t.fresh(), opts...)
+	})
 	text, err := json.Marshal(m)
 	if err != nil {
 		panic(err)
